@@ -8,8 +8,11 @@
   applyWaitsAllCompleted       `FormulaEvaluator.apply` waits for all fetchers (`return_when=asyncio.ALL_COMPLETED`)
   defaultOutputCapacity        default `max_size` of `FormulaEngine.new_receiver`
   fallbackSyncGuardsAhead      `MetricFetcher._synchronize_and_fetch_fallback` returns None (= use the primary sample)
-                               when the primary sample is OLDER than the latest fallback sample, before its catch-up
-                               loop `while primary.timestamp > latest.timestamp` (which only handles "newer")
+                               and consumes nothing when the primary sample is OLDER than the latest fallback sample
+                               (its catch-up loop only handles "newer").  Not read off the statement shapes: the Lean
+                               constant EVALUATES the machine translation of the method (`Extracted.FallbackPull`,
+                               regenerated from the same source by `fallback_pull.py`) on witness states — the latest
+                               sample already held, and the latest sample being the first one received.
 """
 import ast
 import pathlib
@@ -39,44 +42,31 @@ def _mentions(node: ast.AST | None, ident: str) -> bool:
         for x in ast.walk(node))
 
 
-def _ts_of(node: ast.AST) -> str | None:
-    """`<expr>.timestamp` -> a name for <expr> (`x` for a local, `self.y` -> `y`), else None."""
-    if isinstance(node, ast.Attribute) and node.attr == "timestamp":
-        v = node.value
-        if isinstance(v, ast.Name):
-            return v.id
-        if isinstance(v, ast.Attribute):
-            return v.attr
-    return None
+def _fallback_pull_ok(repo: pathlib.Path) -> None:
+    """`fallbackSyncGuardsAhead` is evaluated on `Extracted/FallbackPull.lean`: that translation must exist for THIS
+    source (raises what `fallback_pull.generate` raises)."""
+    import importlib.util
+
+    here = pathlib.Path(__file__).resolve().parent
+    spec = importlib.util.spec_from_file_location("extractors.fallback_pull_for_flags", here / "fallback_pull.py")
+    mod = importlib.util.module_from_spec(spec)
+    spec.loader.exec_module(mod)  # type: ignore[union-attr]
+    mod.generate(repo)
 
 
-def _returns_none(body: list[ast.stmt]) -> bool:
-    return (len(body) >= 1 and isinstance(body[-1], ast.Return)
-            and (body[-1].value is None or (isinstance(body[-1].value, ast.Constant) and body[-1].value.value is None))
-            and not any(isinstance(x, (ast.Await, ast.Assign, ast.AugAssign)) for st in body for x in ast.walk(st)))
-
-
-def _fallback_guard(fn) -> bool:
-    """Is there, before the catch-up `while`, an `if <primary>.timestamp < <latest>.timestamp: return None`
-    (either orientation), `<primary>` being the first parameter of the function?"""
-    params = [a.arg for a in fn.args.args if a.arg != "self"]
-    if not params:
-        raise ValueError("_synchronize_and_fetch_fallback: no parameters")
-    primary = params[0]
-    loops = [i for i, st in enumerate(fn.body) if isinstance(st, ast.While)]
-    if len(loops) != 1:
-        raise ValueError("_synchronize_and_fetch_fallback: expected exactly one catch-up loop")
-    for st in fn.body[:loops[0]]:
-        if not (isinstance(st, ast.If) and isinstance(st.test, ast.Compare) and len(st.test.ops) == 1
-                and not st.orelse and _returns_none(st.body)):
-            continue
-        left, right = _ts_of(st.test.left), _ts_of(st.test.comparators[0])
-        op = st.test.ops[0]
-        if left is None or right is None or left == right:
-            continue
-        if (isinstance(op, ast.Lt) and left == primary) or (isinstance(op, ast.Gt) and right == primary):
-            return True
-    return False
+GUARD_WITNESS = """/-- evaluated on the translation of `_synchronize_and_fetch_fallback`: a primary sample (tick 5) OLDER than the
+latest fallback sample (tick 7) gives `None` and leaves the state alone — (a) the latest sample is already held,
+(b) it is the first one received (then only that one is consumed). -/
+def fallbackSyncGuardsAhead : Bool :=
+  let held : Pull.PSt := ⟨[], false, [⟨8, none⟩], false, true, true, some ⟨7, none⟩, none⟩
+  let fresh : Pull.PSt := ⟨[], false, [⟨7, none⟩, ⟨8, none⟩], false, true, true, none, none⟩
+  (match Extracted.FallbackPull.priv_synchronize_and_fetch_fallback (some ⟨5, none⟩) held with
+   | .ok none c => decide (c = held)
+   | _ => false) &&
+  (match Extracted.FallbackPull.priv_synchronize_and_fetch_fallback (some ⟨5, none⟩) fresh with
+   | .ok none c => decide (c = held)
+   | _ => false)
+"""
 
 
 def generate(repo: pathlib.Path) -> str:
@@ -117,12 +107,16 @@ def generate(repo: pathlib.Path) -> str:
         else:
             raise ValueError("FormulaEngine3Phase._run: neither the pinned zip nor the resynchronising shape")
 
-    guards_ahead = _fallback_guard(_fn(mf, "_synchronize_and_fetch_fallback"))
+    _fallback_pull_ok(repo)
 
     apply_fn = _fn(_cls(evaluator, "FormulaEvaluator"), "apply")
     _fn(_cls(evaluator, "FormulaEvaluator"), "_synchronize_metric_timestamps")
-    all_completed = any(isinstance(k, ast.keyword) and k.arg == "return_when" and _mentions(k.value, "ALL_COMPLETED")
-                        for n in ast.walk(apply_fn) if isinstance(n, ast.Call) for k in n.keywords)
+    # every `asyncio.wait(…)` of the class (wherever a refactoring put it) waits for ALL_COMPLETED, and there is one
+    waits = [n for n in ast.walk(_cls(evaluator, "FormulaEvaluator"))
+             if isinstance(n, ast.Call) and ast.unparse(n.func) == "asyncio.wait"]
+    all_completed = bool(waits) and all(
+        any(k.arg == "return_when" and _mentions(k.value, "ALL_COMPLETED") for k in n.keywords) for n in waits)
+    del apply_fn
 
     newrx = _fn(_cls(engine, "FormulaEngine"), "new_receiver")
     cap = None
@@ -135,12 +129,13 @@ def generate(repo: pathlib.Path) -> str:
 
     b = lambda x: "true" if x else "false"  # noqa: E731
     return (
+        "import Frequenz.Extracted.FallbackPull\n\n"
         "namespace Extracted.Evaluator\n\n"
         f"def receiverErrorHandlers : Nat := {len(handlers)}\n"
         f"def receiverErrorHandlersCatch : Bool := {b(catch)}\n"
         f"def threePhaseResyncs : Bool := {b(resync)}\n"
         f"def applyWaitsAllCompleted : Bool := {b(all_completed)}\n"
         f"def defaultOutputCapacity : Nat := {cap}\n"
-        f"def fallbackSyncGuardsAhead : Bool := {b(guards_ahead)}\n\n"
+        + GUARD_WITNESS + "\n"
         "end Extracted.Evaluator\n"
     )
